@@ -264,6 +264,33 @@ theorem completed_steps_are_up_to_date_next_time (w : World) (m : Bytes) (l : Lo
     (jg_initial e0 a inv0 l0 hc0) h hsrc
   exact next_startup_upToDate w m l e0 hl _ _ j hsrc w' hw' e0' hl' b bm hb hdoneb hnp hall
 
+/-- The same for an invocation that regenerated and reloaded its manifest, for the steps of the
+    part after the reload (the fresh `Work` on the reloaded graph, `Run.buildReloaded`): `e2` is the
+    environment `load::read` returned for the world the manifest phase left. -/
+theorem completed_steps_are_up_to_date_next_time_reloaded (w1 : World) (m : Bytes) (l2 : Loader) (e2 : Env)
+    (hl : loadEnv w1 m = .ok (l2, e2)) (plain : PlainD e2.g)
+    (a : Run.Args) (adopt : Bool) (perms : List (List Nat)) (fin : List (Nat × Sched.Term)) (n0 : Nat)
+    (h : (∃ n, (Run.buildReloaded (schedGraph e2.g) a (choices adopt perms fin) e2 n0).2.2 = .done n) ∨
+         (Run.buildReloaded (schedGraph e2.g) a (choices adopt perms fin) e2 n0).2.2 = .failed)
+    (hsrc : GoodD (Run.buildReloaded (schedGraph e2.g) a (choices adopt perms fin) e2 n0).1
+              (Run.buildReloaded (schedGraph e2.g) a (choices adopt perms fin) e2 n0).2.1)
+    (w' : World)
+    (hw' : w' = { fs := (Run.buildReloaded (schedGraph e2.g) a (choices adopt perms fin) e2 n0).2.1.fs,
+                  clock := (Run.buildReloaded (schedGraph e2.g) a (choices adopt perms fin) e2 n0).2.1.clock,
+                  log := (Run.buildReloaded (schedGraph e2.g) a (choices adopt perms fin) e2 n0).2.1.log })
+    (e0' : Env) (hl' : loadEnv w' m = .ok (l2, e0'))
+    (b : Nat) (bm : BuildM) (hb : buildOf e2.g b = some bm)
+    (hdoneb : (Run.buildReloaded (schedGraph e2.g) a (choices adopt perms fin) e2 n0).1.st b = .done)
+    (hnp : bm.cmdline.isNone = false)
+    (hall : AllPresentD (Run.buildReloaded (schedGraph e2.g) a (choices adopt perms fin) e2 n0).2.1 bm b) :
+    buildOf e0'.g b = some bm ∧ UpToDate e0' b bm ∧ ∀ f ∈ discOf e0' b, fileInput e0'.g f = none := by
+  obtain ⟨inv0, gok, _⟩ := loadEnv_graph_ok w1 m l2 e2 hl
+  obtain ⟨hc0, _, _, _⟩ := loadEnv_frame w1 m l2 e2 hl
+  obtain ⟨_, l0⟩ := loadEnv_loaded0 w1 m l2 e2 hl
+  have j := Run.buildReloaded_done_or_failed gok a _ (JG e2) (jd_spec e2 inv0 l0 plain adopt perms fin) e2
+    (jg_initial e2 a inv0 l0 hc0) n0 h hsrc
+  exact next_startup_upToDate w1 m l2 e2 hl _ _ j hsrc w' hw' e0' hl' b bm hb hdoneb hnp hall
+
 /-- **The monitor's verdict is the theorem's hypothesis.**  `World.settledC` is the decidable
     predicate the driver evaluates on the world the real n2 left behind (monitor
     settledAfterSuccess): every non-phony step in the requested closure has its files, its latest
